@@ -1211,6 +1211,11 @@ def check_cascade_data(ctx, w, cas, arg, pops_arg, members, rng, cs_seed):
             ctx.count("cascade.data.near_year")
         if hole is not None:
             years = sorted(set(years) | {hole})
+        if len(years) > 1 and rng.random() < 0.4:
+            # the requested years in another order than ascending (legal: each requested year is looked up on its own); seeded change R6-c20-2
+            # (np.searchsorted over the requested years) was missed while the list was always sorted
+            years = years[::-1] if len(years) == 2 or rng.random() < 0.5 else years[1:] + years[:1]
+            ctx.count("cascade.data.unsorted_years")
         tt = np.array(years)
     snap = {k: (None if ts is None else (list(ts.t), list(ts.vals))) for k, ts in tss.items()}
     try:
@@ -1228,6 +1233,28 @@ def check_cascade_data(ctx, w, cas, arg, pops_arg, members, rng, cs_seed):
             ctx.violation({"api": "get_cascade_data", "defect": "modifies_databook"}, f"{w.name}: get_cascade_data modified the databook series {k}", {"kind": "cascade", "demo": w.name, "cas": cas, "cs_seed": cs_seed, "pops": pops_arg})
     cidx = {c: i for i, c in enumerate(cons_all)}
     impl = np.array([np.array(cd[nm], dtype=float) for nm, _ in stages])
+    if len(tt) > 1:
+        # order oracle: every requested year is looked up on its own, so the same years asked for in descending order give the same value per year
+        # (seeded change R6-c20-2 -- np.searchsorted over the requested years -- returned NaN for every year of an unsorted request)
+        ctx.count("cascade.data.order_probe")
+        rev = [float(x) for x in tt][::-1]
+        try:
+            with np.errstate(all="ignore"):
+                cd2, t2 = get_cascade_data(data, fw, arg, pops=pops_d, year=rev)
+            impl2 = np.array([np.array(cd2[nm], dtype=float) for nm, _ in stages])[:, ::-1]
+            same = impl2.shape == impl.shape and bool(np.all((impl2 == impl) | (np.isnan(impl2) & np.isnan(impl))))
+            why = None if same else "values differ"
+        except Exception as ex:
+            same, why = False, f"raised {type(ex).__name__}: {str(ex)[:120]}"
+        ctx.traces += 1
+        if not same:
+            script = (f"import atomica as at; P=at.demo('{w.name}',do_run=False)\n"
+                      f"a,_=at.cascade.get_cascade_data(P.data,P.framework,{cas['arg']!r},pops={pops_arg!r},year={[float(x) for x in tt]!r})\n"
+                      f"b,_=at.cascade.get_cascade_data(P.data,P.framework,{cas['arg']!r},pops={pops_arg!r},year={rev!r})\n"
+                      f"print({{k:(a[k], b[k][::-1]) for k in a}})  # the two should be equal")
+            ctx.violation({"api": "get_cascade_data", "defect": "depends_on_order_of_requested_years"},
+                          f"{w.name}: cascade {cas['arg']!r} pops={pops_arg!r}: the data values for the years {[float(x) for x in tt]!r} change when the same years are requested in descending order ({why})",
+                          {"kind": "cascade", "demo": w.name, "cas": cas, "cs_seed": cs_seed, "pops": pops_arg, "script": script})
     any_data = False
     first_bad = None
     lines = []
